@@ -21,7 +21,9 @@ EXPLANATION = (
     "outstanding accepts plaintext cells only); the adjacent hop of a routing entry (hop / hop.peer / hop.peer.address, which is where its return "
     "traffic goes) is never assigned after construction; a store into a routing table under an id that is not wire-controlled uses a freshly "
     "generated id (also one parked in our own request cache by the function that generated it) or converts an entry that exists under that id in "
-    "another table. Guards are read off the function's control-flow graph first; where that reading fails the same question is asked path by "
+    "another table; the PythonCryptoEndpoint that removes the layers is built around the endpoint the community itself is registered on "
+    "(`self.endpoint`, not one of its interfaces), so no interface is left on which datagrams reach the cell handlers undecrypted. "
+    "Guards are read off the function's control-flow graph first; where that reading fails the same question is asked path by "
     "path on a symbolic walk (locals expanded to the expressions they were bound to, tests over constants folded, loops over literal tuples "
     "unrolled, generator helpers stepped with the consuming loop, private helpers entered with parameters bound to the arguments). "
     "Interleavings of concurrent circuits are not explored."
@@ -87,6 +89,192 @@ def _hop_field_of(e, field: str):
     if isinstance(e, ast.Attribute) and e.attr == field and isinstance(strip_cast(e.value), ast.Attribute) and strip_cast(e.value).attr == "hop":
         return strip_cast(strip_cast(e.value).value)
     return None
+
+
+# ---------------------------------------------------------------- struct (un)packing, whatever the spelling
+_STRUCT_OPS = ("pack", "unpack", "unpack_from", "pack_into", "iter_unpack")
+
+
+def _single_top_binding(m, name: str) -> bool:
+    """module-level `name` is bound exactly once (a constant, not a variable the module keeps re-pointing)"""
+    n = 0
+    for st in ast.walk(m.tree):
+        if isinstance(st, ast.Name) and st.id == name and isinstance(st.ctx, (ast.Store, ast.Del)):
+            n += 1
+        elif isinstance(st, ast.Global) and name in st.names:
+            return False
+    return n == 1
+
+
+def _const_in(repo, m, cls, e, depth: int = 0):
+    """
+    Value of a constant expression written in module m (class cls): literals, module / class constants, arithmetic over them,
+    calcsize(<fmt>), <Struct object>.size, len(<constant bytes>).  NOCONST when it is not a constant.
+    """
+    import struct as _struct
+    e = strip_cast(e)
+    v = repo.resolve_const(m, e, cls)
+    if v is not NOCONST or depth > 8:
+        return v
+    if isinstance(e, ast.BinOp):
+        l, r = _const_in(repo, m, cls, e.left, depth + 1), _const_in(repo, m, cls, e.right, depth + 1)
+        if l is NOCONST or r is NOCONST:
+            return NOCONST
+        try:
+            if isinstance(e.op, ast.Add):
+                return l + r
+            if isinstance(e.op, ast.Sub):
+                return l - r
+            if isinstance(e.op, ast.Mult):
+                return l * r
+            if isinstance(e.op, ast.FloorDiv):
+                return l // r
+        except Exception:  # noqa: BLE001
+            return NOCONST
+        return NOCONST
+    if isinstance(e, ast.Attribute) and e.attr == "size":
+        fmt = _struct_fmt(repo, m, cls, e.value, depth + 1)
+        if fmt is not None:
+            try:
+                return _struct.calcsize(fmt)
+            except _struct.error:
+                return NOCONST
+    if isinstance(e, ast.Call) and not e.keywords and len(e.args) == 1 and not isinstance(e.args[0], ast.Starred):
+        f = e.func
+        if isinstance(f, ast.Name) and f.id == "len":
+            v = _const_in(repo, m, cls, e.args[0], depth + 1)
+            return len(v) if isinstance(v, (bytes, str, tuple, list)) else NOCONST
+        if _struct_function(m, f) == "calcsize":
+            fmt = _const_in(repo, m, cls, e.args[0], depth + 1)
+            if isinstance(fmt, (str, bytes)):
+                try:
+                    return _struct.calcsize(fmt)
+                except _struct.error:
+                    return NOCONST
+    if isinstance(e, ast.Name):
+        r = repo.resolve_name(m, e.id)
+        if isinstance(r, tuple) and r[0] == "const" and (e.id not in r[1].constants or _single_top_binding(r[1], e.id)):
+            return _const_in(repo, r[1], None, r[2], depth + 1)
+    if isinstance(e, ast.Attribute):
+        owner, val = _class_attr(repo, m, cls, e)
+        if val is not None:
+            return _const_in(repo, owner.module, owner, val, depth + 1)
+    return NOCONST
+
+
+def _class_attr(repo, m, cls, e: ast.Attribute):
+    """(owning class, value expression) of `self.X` / `cls.X` / `ClassName.X` when X is a class-level attribute, else (None, None)"""
+    c = None
+    if isinstance(e.value, ast.Name) and e.value.id in ("self", "cls") and cls is not None:
+        c = cls
+    else:
+        c = repo.resolve_class_expr(m, e.value)
+    if c is not None and c.lookup_attr(e.attr) is not None:
+        owner = next(k for k in c.mro() if e.attr in k.attrs)
+        return owner, owner.attrs[e.attr]
+    return None, None
+
+
+def _struct_function(m, f) -> str | None:
+    """name of the function of the `struct` module that the callee expression f denotes in module m (import aliases followed)"""
+    if isinstance(f, ast.Name):
+        imp = m.imports.get(f.id)
+        if imp is not None:
+            return imp[1] if imp[0] == "struct" and imp[1] is not None else None
+        return f.id if f.id in (*_STRUCT_OPS, "calcsize", "Struct") and f.id not in m.functions and f.id not in m.classes \
+            and f.id not in m.constants else None
+    if isinstance(f, ast.Attribute) and isinstance(f.value, ast.Name):
+        imp = m.imports.get(f.value.id)
+        if (imp is not None and imp == ("struct", None)) or (imp is None and f.value.id == "struct"):
+            return f.attr
+    return None
+
+
+def _struct_fmt(repo, m, cls, e, depth: int = 0) -> str | None:
+    """format string of the precompiled struct.Struct object e denotes: Struct(<fmt>) in place, a module constant, a class attribute"""
+    e = strip_cast(e)
+    if depth > 8:
+        return None
+    if isinstance(e, ast.Call):
+        if _struct_function(m, e.func) == "Struct" and len(e.args) + len(e.keywords) == 1 and not any(isinstance(a, ast.Starred) for a in e.args):
+            a = e.args[0] if e.args else (e.keywords[0].value if e.keywords[0].arg == "format" else None)
+            v = _const_in(repo, m, cls, a, depth + 1) if a is not None else NOCONST
+            if isinstance(v, bytes):
+                v = v.decode("latin-1")
+            return v if isinstance(v, str) else None
+        return None
+    if isinstance(e, ast.Name):
+        r = repo.resolve_name(m, e.id)
+        if isinstance(r, tuple) and r[0] == "const" and (e.id not in r[1].constants or _single_top_binding(r[1], e.id)):
+            return _struct_fmt(repo, r[1], None, r[2], depth + 1)
+        return None
+    if isinstance(e, ast.Attribute):
+        owner, val = _class_attr(repo, m, cls, e)
+        if val is not None:
+            return _struct_fmt(repo, owner.module, owner, val, depth + 1)
+    return None
+
+
+def _struct_call(repo, fi: FuncInfo, call):
+    """
+    (operation, format string, operands) of a struct (un)packing call in any of its spellings - `pack(fmt, ...)`, `struct.pack(fmt, ...)`,
+    `S.pack(...)` with S a precompiled Struct(fmt) (module constant / class attribute / written in place) - the format given as a literal
+    or a named constant.  None when the call is not one of these or its format is not a constant.
+    """
+    call = strip_cast(call)
+    if not isinstance(call, ast.Call) or any(isinstance(a, ast.Starred) for a in call.args[:1]):
+        return None
+    m, cls = fi.module, fi.cls
+    f = call.func
+    op = _struct_function(m, f)
+    if op in _STRUCT_OPS:
+        fa = call.args[0] if call.args else next((k.value for k in call.keywords if k.arg == "format"), None)
+        if fa is None:
+            return None
+        fmt = _const_in(repo, m, cls, fa)
+        if isinstance(fmt, bytes):
+            fmt = fmt.decode("latin-1")
+        rest = call.args[1:] if call.args else []
+        return (op, fmt, list(rest), {k.arg: k.value for k in call.keywords if k.arg and k.arg != "format"}) if isinstance(fmt, str) else None
+    if op is None and isinstance(f, ast.Attribute) and f.attr in _STRUCT_OPS:
+        fmt = _struct_fmt(repo, m, cls, f.value)
+        if fmt is not None:
+            return f.attr, fmt, list(call.args), {k.arg: k.value for k in call.keywords if k.arg}
+    return None
+
+
+def _fmt_operands(fmt: str) -> list | None:
+    """
+    [(code, byte offset, size)] per operand of a big-endian / network-order struct format (no padding in these modes): "!cI??" ->
+    [("c", 0, 1), ("I", 1, 4), ("?", 5, 1), ("?", 6, 1)].  None for other byte orders or a format that does not parse.
+    """
+    import re
+    import struct as _struct
+    if fmt[:1] not in ("!", ">"):
+        return None
+    out, off = [], 0
+    items = re.findall(r"\s*(\d*)([A-Za-z?])", fmt[1:])
+    if "".join(f"{c}{k}" for c, k in items) != re.sub(r"\s", "", fmt[1:]):
+        return None
+    for cnt, code in items:
+        try:
+            if code in ("s", "p"):
+                size = _struct.calcsize("!" + cnt + code)
+                out.append((code, off, size))
+                off += size
+                continue
+            one = _struct.calcsize("!" + code)
+        except _struct.error:
+            return None
+        for _ in range(int(cnt) if cnt else 1):
+            if code != "x":
+                out.append((code, off, one))
+            off += one
+    return out
+
+
+def _is_uint32(code: str) -> bool:
+    return code in ("I", "L")           # 4 bytes, unsigned, in standard (network / big-endian) mode: what a cell's circuit id is on the wire
 
 
 def _try_walk(ctx: Ctx, fi: FuncInfo, force=()):
@@ -419,9 +607,7 @@ def rule_no_overwrite(ctx: Ctx) -> None:
             return False
         if fi.qualname in allowed:
             return True
-        if not fi.name.startswith("_") or fi.name.startswith("__") or fi.qualname in seen:
-            return False
-        users = _callers_within(repo, fi)
+        users = _helper_users(repo, fi) if fi.qualname not in seen else None
         return bool(users) and all(writer_ok(u, seen | {fi.qualname}) for u in users)
 
     for w in writers:
@@ -488,8 +674,16 @@ def rule_no_overwrite(ctx: Ctx) -> None:
         if w is None:
             raise AnalysisError("undecided: _generate_circuit_id could not be followed")
         rets = [(st, v) for kind, st, v in w.ends if kind == "return" and v is not None]
-        ok = bool(rets) and all(any(_absent(fact_of(a, pol), "self.circuits", lambda k, v=v: norm(k) == norm(v)) for a, pol in st.conds)
-                                for st, v in rets) and not any(kind == "next" for kind, _st, _v in w.ends)
+
+        def tested_free(st, v) -> bool:
+            if any(_absent(fact_of(a, pol), "self.circuits", lambda k, v=v: norm(k) == norm(v)) for a, pol in st.conds):
+                return True
+            # the value is picked out of a stream of candidates by a test: next(c for c in <stream> if c not in self.circuits),
+            # next(filter(<test>, <stream>)), next(filterfalse / dropwhile(<in self.circuits>, <stream>))
+            sel = _selected(v, st.env)
+            return sel is not None and any(_absent(fact_of(a, pol), "self.circuits", lambda k: norm(k) == sel[0]) for a, pol in sel[1])
+
+        ok = bool(rets) and all(tested_free(st, v) for st, v in rets) and not any(kind == "next" for kind, _st, _v in w.ends)
     ctx.check(ok, "no-overwrite-live-id", g, g.node, "_generate_circuit_id loops while the id is in self.circuits",
               "locally generated circuit ids may collide with live circuits")
 
@@ -574,16 +768,28 @@ def rule_data_origin(ctx: Ctx) -> None:
 def rule_return_path(ctx: Ctx) -> None:
     repo = ctx.repo
     td = repo.method("TunnelExitSocket", "tunnel_data", "ipv8/messaging/anonymization/exit_socket.py")
-    sd = ctx.anchor(calls(td, "self.overlay.send_data"), "send_data in TunnelExitSocket.tunnel_data")
+    sd_direct = calls(td, "self.overlay.send_data")
+    # (the call may be made through a local the bound method / a partial application of it was put in)
+    sd_groups = _call_groups(ctx, td, lambda ch, f: "send_data" if ch == "self.overlay.send_data" else None) if not sd_direct else None
+    sd = ctx.anchor(sd_direct or [orig for orig, _nm, _hs in (sd_groups or {}).values()], "send_data in TunnelExitSocket.tunnel_data")
+    sd_fn = repo.method("TunnelCommunity", "send_data", TC)
+    SD = sd_fn.params()[1:6]                # operands may be given by position or by the parameter's name
+
+    def sd_arg(call, i):
+        return arg(call, i, SD[i] if i < len(SD) else None)
+
     def bound(call) -> bool:
-        return norm(arg(call, 0)) == "self.hop.address" and norm(arg(call, 1)) == "self.circuit_id" \
-            and const_value(arg(call, 2)) == ("0.0.0.0", 0) and chain(arg(call, 3)) == td.params()[1] and chain(arg(call, 4)) == td.params()[2]
+        if any(isinstance(a, ast.Starred) for a in call.args) or any(k.arg is None for k in call.keywords) or len(SD) != 5 \
+                or any(sd_arg(call, i) is None for i in range(5)):
+            return False
+        return norm(strip_cast(sd_arg(call, 0))) == "self.hop.address" and norm(strip_cast(sd_arg(call, 1))) == "self.circuit_id" \
+            and const_value(sd_arg(call, 2)) == ("0.0.0.0", 0) and chain(sd_arg(call, 3)) == td.params()[1] and chain(sd_arg(call, 4)) == td.params()[2]
 
     for c in sd:
-        ok = all(arg(c, i) is not None for i in range(5)) and bound(c)
+        ok = bool(sd_direct) and bound(c)
         w = None if ok else _try_walk(ctx, td)
-        _decide(ctx, "return-path-bound", td, c, ok, None if w is None else [h for h in w.hits if h.orig is c],
-                lambda h: all(arg(h.node(), i) is not None for i in range(5)) and bound(h.node()),
+        _decide(ctx, "return-path-bound", td, c, ok if sd_direct else None, None if w is None else [h for h in w.hits if h.orig is c],
+                lambda h: isinstance(h.node(), ast.Call) and bound(h.node()),
                 "return traffic goes to the socket's own hop under its own circuit id, destination null, origin = outside source",
                 "return traffic of an exit socket is not bound to that socket's own circuit/hop")
     # circuit_id / hop of an exit socket are set once in __init__ from the constructor arguments
@@ -593,9 +799,7 @@ def rule_return_path(ctx: Ctx) -> None:
             return False
         if f.qualname == "PythonCryptoEndpoint.relay_cell":
             return True
-        if not f.name.startswith("_") or f.name.startswith("__") or f.qualname in seen:
-            return False
-        users = _callers_within(repo, f)
+        users = _helper_users(repo, f) if f.qualname not in seen else None
         return bool(users) and all(part_of_relay_cell(u, seen | {f.qualname}) for u in users)
 
     for m, fi, a in repo.attribute_uses("circuit_id"):
@@ -610,15 +814,41 @@ def rule_return_path(ctx: Ctx) -> None:
                       "the circuit id of a routing object is reassigned after construction")
     unwrap = repo.method("CellPayload", "unwrap", "ipv8/messaging/anonymization/payload.py")
     packs = [c for c in calls(unwrap, "pack")]
-    ok = len(packs) == 1 and const_value(packs[0].args[0]) == "!I" and norm(packs[0].args[1]) == "self.circuit_id"
+    ok = len(packs) == 1 and len(packs[0].args) == 2 and const_value(packs[0].args[0]) == "!I" and norm(packs[0].args[1]) == "self.circuit_id"
     if not ok:
-        # same thing per path: every 4-byte id packed into the re-ordered cell is the header's circuit id (locals expanded)
+        # same thing per path: every 4-byte id packed into the re-ordered cell is the header's circuit id (locals expanded; the packing
+        # may be spelled pack("!I", v), <Struct("!I")>.pack(v) with the Struct held in a module / class constant, or v.to_bytes(4, "big"))
         w = _try_walk(ctx, unwrap)
-        hs = [h for h in (w.hits if w is not None else []) if h.kind == "call"
-              and ((h.names() == ["pack"] and h.node().args and const_value(h.node().args[0]) == "!I")
-                   or (h.names() == ["to_bytes"] and [const_value(x) for x in h.node().args] == [4, "big"]))]
-        ok = bool(hs) and len({id(h.orig) for h in hs}) == 1 and all(
-            norm(h.node().args[1] if h.names() == ["pack"] else h.node().func.value) == "self.circuit_id" and len(h.node().args) == 2 for h in hs)
+
+        def packed_id(h: _Hit):
+            """the value packed as one big-endian unsigned 32-bit integer by this call, else None"""
+            if h.kind != "call":
+                return None
+            n = h.node()
+            sc = _struct_call(repo, h.fi, n)
+            if sc is not None:
+                op, fmt, rest, kw = sc
+                ops = _fmt_operands(fmt)
+                vals = rest[2:] if op == "pack_into" else rest
+                if op not in ("pack", "pack_into") or ops is None or kw or any(isinstance(x, ast.Starred) for x in rest) or len(vals) != len(ops):
+                    return None
+                ids = [v for v, (code, _o, _s) in zip(vals, ops) if _is_uint32(code)]
+                # (several 32-bit fields in one pack: each of them has to be the header's id)
+                return ids[0] if ids and all(norm(strip_cast(x)) == norm(strip_cast(ids[0])) for x in ids) else \
+                    (ast.Constant(value="<several different values>") if ids else None)
+            if h.names() == ["to_bytes"] and isinstance(n.func, ast.Attribute):
+                a = [_const_in(repo, h.fi.module, h.fi.cls, x) for x in n.args]
+                k = {x.arg: _const_in(repo, h.fi.module, h.fi.cls, x.value) for x in n.keywords}
+                length = a[0] if a else k.get("length", 1)
+                order = a[1] if len(a) > 1 else k.get("byteorder", "big")
+                if len(a) <= 2 and (length, order) == (4, "big") and k.get("signed", False) is False and set(k) <= {"length", "byteorder", "signed"} \
+                        and not any(isinstance(x, ast.Starred) for x in n.args):
+                    return n.func.value
+            return None
+
+        hs = [(h, packed_id(h)) for h in (w.hits if w is not None else [])]
+        hs = [(h, v) for h, v in hs if v is not None]
+        ok = bool(hs) and len({id(h.orig) for h, _v in hs}) == 1 and all(norm(strip_cast(v)) == "self.circuit_id" for _h, v in hs)
     ctx.check(ok, "return-path-bound", unwrap, unwrap.node, "unwrap re-injects the header's circuit id", "unwrap injects a circuit id other than the cell header's")
     fb = repo.method("CellPayload", "from_bin", "ipv8/messaging/anonymization/payload.py")
     rets = [r for r in walk_no_nested(fb.node) if isinstance(r, ast.Return)]
@@ -638,13 +868,65 @@ def rule_return_path(ctx: Ctx) -> None:
                 return False
             cid = arg(v, 0, "circuit_id")
             cid = strip_cast(cid) if cid is not None else None
-            if not (isinstance(cid, ast.Subscript) and const_value(cid.slice) == 0 and isinstance(strip_cast(cid.value), ast.Call)):
+            if isinstance(cid, ast.Starred) or cid is None:
                 return False
-            u = strip_cast(cid.value)
-            # the header starts behind prefix (22) + message id (1), where to_bin() put it
-            return (chain(u.func) or "").rsplit(".", 1)[-1] == "unpack_from" and len(u.args) == 3 and const_value(u.args[2]) == 23 \
-                and isinstance(const_value(u.args[0]), str) and const_value(u.args[0]).lstrip("!>").startswith("I") \
-                and chain(u.args[1]) in fb.params()
+
+            def cv(x):
+                return _const_in(repo, fb.module, fb.cls, x) if x is not None else NOCONST
+
+            def header_bytes(b, size) -> bool:
+                """b is packet[23:23+size]"""
+                b = strip_cast(b)
+                if isinstance(b, ast.Call) and isinstance(b.func, ast.Name) and b.func.id in ("bytes", "memoryview") and len(b.args) == 1 and not b.keywords:
+                    b = strip_cast(b.args[0])
+                if not (isinstance(b, ast.Subscript) and isinstance(b.slice, ast.Slice) and b.slice.step is None and packet_of(b.value)):
+                    return False
+                lo, hi = cv(b.slice.lower), cv(b.slice.upper)
+                return lo == 23 and hi == 23 + size
+
+            def packet_of(b) -> bool:
+                b = strip_cast(b)
+                if isinstance(b, ast.Call) and isinstance(b.func, ast.Name) and b.func.id == "memoryview" and len(b.args) == 1 and not b.keywords:
+                    b = strip_cast(b.args[0])
+                return isinstance(b, ast.Name) and b.id in fb.params()
+
+            # int.from_bytes(packet[23:27], "big"): the same four bytes read without struct
+            if isinstance(cid, ast.Call) and chain(cid.func) == "int.from_bytes" and cid.args and not isinstance(cid.args[0], ast.Starred):
+                order = cv(cid.args[1]) if len(cid.args) > 1 else next((cv(k.value) for k in cid.keywords if k.arg == "byteorder"), "big")
+                signed = next((cv(k.value) for k in cid.keywords if k.arg == "signed"), False)
+                return len(cid.args) <= 2 and order == "big" and signed is False and header_bytes(cid.args[0], 4)
+            if not (isinstance(cid, ast.Subscript) and isinstance(cv(cid.slice), int) and not isinstance(cv(cid.slice), bool)
+                    and isinstance(strip_cast(cid.value), ast.Call)):
+                return False
+            sc = _struct_call(repo, fb, strip_cast(cid.value))
+            if sc is None:
+                return False
+            op, fmt, rest, kw = sc
+            ops = _fmt_operands(fmt)
+            idx = cv(cid.slice)
+            if ops is None or any(isinstance(x, ast.Starred) for x in rest) or not -len(ops) <= idx < len(ops) or not _is_uint32(ops[idx][0]):
+                return False
+            code, field_off, _size = ops[idx]
+            total = ops[-1][1] + ops[-1][2]
+            # the id sits behind prefix (22) + message id (1), where to_bin() put it: the field read must start at byte 23 of the packet
+            if op == "unpack_from":
+                buf = rest[0] if rest else kw.get("buffer")
+                off = rest[1] if len(rest) > 1 else kw.get("offset")
+                start = cv(off) if off is not None else 0
+                return len(rest) <= 2 and buf is not None and packet_of(buf) and isinstance(start, int) and start + field_off == 23
+            if op == "unpack":
+                if len(rest) != 1 or kw:
+                    return False
+                b = strip_cast(rest[0])
+                if isinstance(b, ast.Call) and isinstance(b.func, ast.Name) and b.func.id in ("bytes", "memoryview") and len(b.args) == 1 and not b.keywords:
+                    b = strip_cast(b.args[0])
+                if not (isinstance(b, ast.Subscript) and isinstance(b.slice, ast.Slice) and b.slice.step is None and packet_of(b.value)):
+                    return False
+                lo = cv(b.slice.lower) if b.slice.lower is not None else 0
+                hi = cv(b.slice.upper)
+                # (unpack() accepts exactly `total` bytes: any other slice raises instead of yielding an id)
+                return isinstance(lo, int) and lo >= 0 and lo + field_off == 23 and (hi == lo + total)
+            return False
         ok = bool(ends) and all(header_field0(v) for _st, v in ends)
     ctx.check(ok, "return-path-bound", fb, fb.node, "cell circuit id is the first header field", "from_bin takes the circuit id from somewhere other than the cell header")
     # process_cell / routing use cell.circuit_id for all three lookups
@@ -792,6 +1074,55 @@ def _callers_within(repo, fi: FuncInfo) -> list[FuncInfo | None]:
     return out
 
 
+def _class_users(repo, ci) -> list:
+    """
+    The functions in whose body class ci is referred to by name (instantiated, handed on); None stands for a use outside any function or
+    from a module that imports it under another name.  Annotations do not count: they create nothing.
+    """
+    from ..model import ancestors
+    out: list = []
+    for m in repo.modules.values():
+        if m is not ci.module:
+            imp = [k for k, v in m.imports.items() if v[1] == ci.name and repo.modules.get(v[0]) is ci.module]
+            if not imp:
+                continue
+            if imp != [ci.name]:
+                out.append(None)
+                continue
+        for n in ast.walk(m.tree):
+            if not (isinstance(n, ast.Name) and n.id == ci.name and isinstance(n.ctx, ast.Load)):
+                continue
+            child, annotation = n, False
+            for a in ancestors(n):
+                if isinstance(a, ast.arg) or (isinstance(a, (ast.FunctionDef, ast.AsyncFunctionDef)) and child is a.returns) \
+                        or (isinstance(a, ast.AnnAssign) and child is a.annotation):
+                    annotation = True
+                    break
+                child = a
+            if annotation:
+                continue
+            out.append(repo.function_of(n))
+    return out
+
+
+def _helper_users(repo, fi: FuncInfo) -> list | None:
+    """
+    Who can run fi, when fi is a helper that exists only for the functions using it: the callers (by name) of a private function / method,
+    or - for a method of a private helper class (a callable object standing in for a closure, a small strategy / result object) - the
+    functions that refer to the class plus the callers of the method's name.  None: fi is not such a helper.
+    """
+    ci = fi.cls
+    if ci is not None and ci.name.startswith("_") and not ci.name.startswith("__") and ci.module.relpath.startswith(PKG) \
+            and all(_last(b) in ("NamedTuple", "Enum", "object") for b in ci.base_names) and not ci.subclasses and fi.name != "__init__":
+        users = _class_users(repo, ci)
+        if not (fi.name.startswith("__") and fi.name.endswith("__")):
+            users = users + _callers_within(repo, fi)
+        return [u for u in users if u is None or u.cls is not ci] or [None]
+    if not fi.name.startswith("_") or fi.name.startswith("__"):
+        return None
+    return _callers_within(repo, fi)
+
+
 def rule_removers(ctx: Ctx) -> None:
     """Closed set of functions that may call remove_circuit / remove_relay / remove_exit_socket."""
     repo = ctx.repo
@@ -814,10 +1145,8 @@ def rule_removers(ctx: Ctx) -> None:
                                        and isinstance(n.func.value, ast.Call) and chain(n.func.value.func) == "super"
                                        for n in walk_no_nested(fi.node)):
             return True             # override that delegates to super().remove_*: same operation
-        # a private helper every use of which lies in a permitted function
-        if not fi.name.startswith("_") or fi.name.startswith("__") or q in seen:
-            return False
-        users = _callers_within(repo, fi)
+        # a private helper (function, or method of a private helper class) every use of which lies in a permitted function
+        users = _helper_users(repo, fi) if q not in seen else None
         return bool(users) and all(permitted(u, seen | {q}) for u in users)
 
     n = 0
@@ -953,9 +1282,31 @@ def rule_auth_failure_inert(ctx: Ctx) -> None:
     n = 0
     for fi in funcs:
         tries = [t for t in walk_no_nested(fi.node) if isinstance(t, ast.Try) and t.handlers]
+        removals = [c for c in calls(fi) if call_name(c) in REMOVERS]
+        # `with suppress(E): body` is `try: body / except E: pass`: the failure is swallowed and the code behind the statement runs
+        for wn in [x for x in walk_no_nested(fi.node) if isinstance(x, ast.With) and len(x.items) == 1 and isinstance(x.items[0].context_expr, ast.Call)]:
+            sup = wn.items[0].context_expr
+            if _lib_name(sup.func, {_FI: fi}, "contextlib") != "suppress" or not sup.args or sup.keywords or any(isinstance(a, ast.Starred) for a in sup.args):
+                continue
+            body_nodes = [x for s_ in wn.body for x in walk_no_nested(s_)]
+            src = [x for x in body_nodes if (isinstance(x, ast.Call) and call_name(x) in raisers)
+                   or (isinstance(x, ast.Raise) and raises_ce_directly(fi, x))]
+            if not src:
+                continue
+            n += 1
+            typ = sup.args[0] if len(sup.args) == 1 else ast.Tuple(elts=list(sup.args), ctx=ast.Load())
+            if not catches_ce(ast.ExceptHandler(type=typ, name=None, body=[])):
+                ctx.instance("auth-failure-inert", fi.where, f"`suppress({norm(typ)})` around `{norm(src[0])[:50]}` cannot receive CryptoException", line=wn.lineno)
+                continue
+            hidden = [c for c in calls(fi) if call_name(c) not in REMOVERS and any(
+                isinstance(tgt, FuncInfo) and tgt.module.relpath.startswith(PKG) and tgt.name not in REMOVERS
+                and any(call_name(k) in REMOVERS for k in calls(tgt, nested=True)) for tgt in repo.resolve_call(fi, c))]
+            if removals or hidden:
+                # which of them run only after a swallowed failure is a question about paths this rule has no graph for
+                raise AnalysisError(f"undecided: auth-failure-inert: {fi.qualname} swallows CryptoException with suppress() and also removes routing entries")
+            ctx.instance("auth-failure-inert", fi.where, f"`suppress({norm(typ)})` around `{norm(src[0])[:50]}`: the function removes no entry", line=wn.lineno)
         if not tries:
             continue
-        removals = [c for c in calls(fi) if call_name(c) in REMOVERS]
         for t in tries:
             body_nodes = [x for s in t.body for x in walk_no_nested(s)]
             src = [x for x in body_nodes if (isinstance(x, ast.Call) and call_name(x) in raisers)
@@ -1088,10 +1439,16 @@ _DICT_TABLES = ("self.circuits", "self.relay_from_to", "self.exit_sockets", "sel
 _NOT_STEPPED_INTO = {"_generate_circuit_id"}        # its call IS the provenance the rules look for (decided on its own)
 
 
+_FI = "\0fi"        # key of an environment under which the function owning the frame is kept (no local can have this name)
+
+
 class _Frame:
     __slots__ = ("fi", "env", "gen")
 
     def __init__(self, fi, env, gen=False):
+        if env.get(_FI) is not fi:
+            env = dict(env)
+            env[_FI] = fi
         self.fi, self.env, self.gen = fi, env, gen
 
 
@@ -1142,8 +1499,254 @@ def _is_cast(e) -> bool:
     return isinstance(e, ast.Call) and isinstance(e.func, ast.Name) and e.func.id == "cast" and len(e.args) == 2 and not e.keywords
 
 
+# Result objects.  A decision helper may hand its verdict back as a small record (NamedTuple / dataclass / namedtuple()) whose fields are
+# constants, Enum members and the expressions the caller goes on to use.  `Rec(a, b).f`, `Rec(a, b)[1]` and `x, y = Rec(a, b)` are the
+# constructor operand bound to that field - a purely syntactic projection - and two members of one Enum are equal iff they are the same
+# member.  Classes are looked up by (repository-unique) name in the repository of the walk in progress.
+_CUR: dict = {"repo": None}
+_ENUM_BASES = ("Enum", "IntEnum", "StrEnum", "Flag", "IntFlag")
+
+
+def _last(name: str | None) -> str:
+    return (name or "").rsplit(".", 1)[-1]
+
+
+def _class_tables(repo) -> tuple[dict, dict]:
+    """({record class name: (kind, [(field, default expr | None)], ClassInfo | None)}, {enum class name: ({member: value key | None}, plain)})"""
+    cached = repo.__dict__.get("_c05_class_tables")
+    if cached is not None:
+        return cached
+    records: dict = {}
+    enums: dict = {}
+    taken = {f.name for m in repo.modules.values() for f in m.functions.values()}
+    for name, cis in repo.classes.items():
+        if len(cis) != 1 or name in taken:
+            continue
+        ci = cis[0]
+        bases = [_last(b) for b in ci.base_names]
+        decos = [_last(chain(d.func if isinstance(d, ast.Call) else d)) for d in ci.node.decorator_list]
+        if "NamedTuple" in bases and len(bases) == 1:
+            fields = [(f, ci.attrs.get(f)) for f, ann in ci.annotations.items() if "ClassVar" not in norm(ann)]
+            if not any(k in ci.methods for k in ("__new__", "__init__", "__getattr__", "__getattribute__")):
+                records[name] = ("tuple", fields, ci, None)
+        elif "dataclass" in decos and not ci.node.bases and not ci.node.keywords and \
+                (ci.module.imports.get("dataclass") == ("dataclasses", "dataclass") or ci.module.imports.get("dataclasses") == ("dataclasses", None)):
+            deco = next(d for d in ci.node.decorator_list if _last(chain(d.func if isinstance(d, ast.Call) else d)) == "dataclass")
+            opts = {k.arg: const_value(k.value) for k in deco.keywords} if isinstance(deco, ast.Call) else {}
+            if opts.get("init", True) is not True or opts.get("kw_only", False) is not False \
+                    or any(k in ci.methods for k in ("__init__", "__post_init__", "__new__", "__getattr__", "__getattribute__", "__setattr__")):
+                continue
+            fields = []
+            for f, ann in ci.annotations.items():
+                if "ClassVar" in norm(ann) or "InitVar" in norm(ann):
+                    fields = None
+                    break
+                d = ci.attrs.get(f)
+                if isinstance(d, ast.Call) and _last(chain(d.func)) == "field":
+                    dk = {k.arg: k.value for k in d.keywords}
+                    if d.args or set(dk) - {"default", "repr", "compare", "hash"}:
+                        fields = None       # init=False / default_factory / kw_only fields: constructor operands no longer line up
+                        break
+                    d = dk.get("default")
+                fields.append((f, d))
+            if fields and opts.get("frozen", False) is not True:
+                # not frozen: its fields stay what the constructor was given only if nothing in the repository assigns an attribute of that name
+                if any(isinstance(a.ctx, (ast.Store, ast.Del)) for f, _d in fields for _m, _fi, a in repo.attribute_uses(f)):
+                    fields = None
+            if fields is not None:
+                records[name] = ("data", fields, ci, None)
+        elif not ci.node.bases and not ci.node.keywords and not ci.node.decorator_list and name.startswith("_") and not name.startswith("__") \
+                and "__init__" in ci.methods and ci.module.relpath.startswith(PKG):
+            # a small private class whose __init__ only stores its parameters (callable objects standing in for closures, result holders)
+            init = ci.methods["__init__"].node
+            a = init.args
+            if a.vararg or a.kwarg or a.kwonlyargs or a.posonlyargs or init.decorator_list or len(a.args) < 1 \
+                    or any(k in ci.methods for k in ("__new__", "__getattr__", "__getattribute__", "__setattr__", "__eq__")):
+                continue
+            params = [x.arg for x in a.args[1:]]
+            defaults = dict(zip(params[len(params) - len(a.defaults):], a.defaults)) if a.defaults else {}
+            amap: dict = {}
+            ok = True
+            for st in init.body:
+                if isinstance(st, ast.Expr) and isinstance(st.value, ast.Constant):
+                    continue
+                tgt = st.targets[0] if isinstance(st, ast.Assign) and len(st.targets) == 1 else (st.target if isinstance(st, ast.AnnAssign) else None)
+                val = strip_cast(st.value) if isinstance(st, (ast.Assign, ast.AnnAssign)) and st.value is not None else None
+                if not (isinstance(tgt, ast.Attribute) and isinstance(tgt.value, ast.Name) and tgt.value.id == a.args[0].arg
+                        and isinstance(val, ast.Name) and val.id in params and tgt.attr not in amap):
+                    ok = False
+                    break
+                amap[tgt.attr] = val.id
+            # nothing else in the class re-points these attributes, and none is shadowed by a method / property / class attribute
+            for mname, mfi in ci.methods.items():
+                if mname != "__init__" and any(isinstance(n, ast.Attribute) and isinstance(n.ctx, (ast.Store, ast.Del)) and n.attr in amap
+                                               for n in ast.walk(mfi.node)):
+                    ok = False
+            if ok and amap and not (set(amap) & (set(ci.methods) | set(ci.attrs) - {"__slots__"})):
+                records[name] = ("init", [(p_, defaults.get(p_)) for p_ in params], ci, amap)
+        elif any(b in _ENUM_BASES for b in bases) and len(bases) == 1:
+            members: dict = {}
+            n_auto = 0
+            for f, v in ci.attrs.items():
+                if f.startswith("_"):
+                    continue
+                if isinstance(v, ast.Call) and _last(chain(v.func)) == "auto" and not v.args and not v.keywords:
+                    n_auto += 1
+                    members[f] = ("auto", n_auto)
+                else:
+                    cv = const_value(v)
+                    members[f] = None if cv is NOCONST else ("const", cv)
+            keys = [k for k in members.values()]
+            kinds = {k[0] for k in keys if k is not None}
+            if None in keys or len(kinds) > 1 or len({repr(k) for k in keys}) != len(keys) \
+                    or any(k in ci.methods for k in ("__new__", "__init__", "_generate_next_value_", "_missing_")):
+                members = {f: None for f in members}         # aliases cannot be excluded: only "same member" is decidable
+            plain = bases[0] == "Enum" and not any(k in ci.methods for k in ("__bool__", "__len__", "__eq__", "__hash__"))
+            if members and "__eq__" not in ci.methods:
+                enums[name] = (members, plain)
+    # namedtuple("X", "a b") / namedtuple("X", ["a", "b"], defaults=(...)) bound once at module level under its own name
+    for m in repo.modules.values():
+        for name, v in m.constants.items():
+            if not (isinstance(v, ast.Call) and _last(chain(v.func)) == "namedtuple" and len(v.args) == 2 and name not in repo.classes and name not in taken):
+                continue
+            if any(name in m2.constants for m2 in repo.modules.values() if m2 is not m) or not _single_top_binding(m, name):
+                continue
+            spec = const_value(v.args[1]) if not isinstance(v.args[1], ast.List) else const_value(ast.Tuple(elts=v.args[1].elts, ctx=ast.Load()))
+            if isinstance(spec, str):
+                spec = tuple(spec.replace(",", " ").split())
+            if not (isinstance(spec, tuple) and spec and all(isinstance(x, str) for x in spec)) or const_value(v.args[0]) != name:
+                continue
+            dk = {k.arg: k.value for k in v.keywords}
+            if set(dk) - {"defaults"}:
+                continue
+            defs = list(dk["defaults"].elts) if isinstance(dk.get("defaults"), (ast.Tuple, ast.List)) else ([] if "defaults" not in dk else None)
+            if defs is None or len(defs) > len(spec):
+                continue
+            records[name] = ("tuple", list(zip(spec, [None] * (len(spec) - len(defs)) + defs)), None, None)
+    repo.__dict__["_c05_class_tables"] = (records, enums)
+    return records, enums
+
+
+def _record_of(call):
+    """(class name, kind, fields, ClassInfo | None) when `call` constructs a record, else None"""
+    repo = _CUR["repo"]
+    if repo is None or not isinstance(call, ast.Call) or not isinstance(call.func, (ast.Name, ast.Attribute)):
+        return None
+    name = _last(chain(call.func))
+    info = _class_tables(repo)[0].get(name)
+    if info is None or (isinstance(call.func, ast.Attribute) and not isinstance(call.func.value, ast.Name)):
+        return None
+    return (name, *info)
+
+
+def _record_operands(call) -> dict | None:
+    """{field: operand expression} of a record constructor call (declared defaults filled in where they are context-free), else None"""
+    rec = _record_of(call)
+    if rec is None:
+        return None
+    _name, _kind, fields, _ci, _amap = rec
+    names = [f for f, _d in fields]
+    if any(isinstance(a, ast.Starred) for a in call.args) or any(k.arg is None for k in call.keywords) or len(call.args) > len(names):
+        return None
+    given = dict(zip(names, call.args))
+    for k in call.keywords:
+        if k.arg not in names or k.arg in given:
+            return None
+        given[k.arg] = k.value
+    for f, d in fields:
+        if f not in given:
+            # a default is evaluated where the class is defined: only forms that mean the same everywhere are taken over
+            if d is not None and (const_value(d) is not NOCONST or _enum_member(d) is not None):
+                given[f] = d
+            else:
+                return None
+    return given
+
+
+def _record_field(call, attr: str | None = None, index: int | None = None):
+    rec = _record_of(call)
+    if rec is None:
+        return None
+    ops = _record_operands(call)
+    if ops is None:
+        return None
+    names = list(ops)
+    if index is not None:
+        if rec[1] != "tuple" or not -len(names) <= index < len(names):
+            return None
+        attr = [f for f, _d in rec[2]][index]
+    elif rec[4] is not None:
+        attr = rec[4].get(attr)         # plain class: the attribute holds the constructor parameter its __init__ stored there
+    return ops.get(attr)
+
+
+def _enum_member(e):
+    """(enum class name, member name) when e is `EnumClass.MEMBER` / `mod.EnumClass.MEMBER`, else None"""
+    repo = _CUR["repo"]
+    if repo is None or not isinstance(e, ast.Attribute) or not isinstance(e.value, (ast.Name, ast.Attribute)):
+        return None
+    cname = _last(chain(e.value))
+    info = _class_tables(repo)[1].get(cname) if cname else None
+    if info is None or e.attr not in info[0] or (isinstance(e.value, ast.Attribute) and not isinstance(e.value.value, ast.Name)):
+        return None
+    return cname, e.attr
+
+
+def _enum_equal(a, b):
+    """True / False when the two enum members are known to be the same / different objects, None when undecidable"""
+    if a[0] != b[0]:
+        return None
+    if a[1] == b[1]:
+        return True
+    members = _class_tables(_CUR["repo"])[1][a[0]][0]
+    ka, kb = members.get(a[1]), members.get(b[1])
+    return False if ka is not None and kb is not None and ka != kb else None
+
+
+def _same_key(k, s) -> bool | None:
+    """does dict-display key k equal subscript s?  (constants and enum members only; None: cannot tell)"""
+    if isinstance(k, ast.Constant) and isinstance(s, ast.Constant):
+        return k.value == s.value and type(k.value) is type(s.value)
+    mk, ms = _enum_member(k), _enum_member(s)
+    if mk is not None and ms is not None:
+        return _enum_equal(mk, ms)
+    return None
+
+
 def _lit_index(e):
-    """{'a': f, 'b': g}['a'] -> f ; (x, y)[1] -> y   (literal containers indexed by a constant)"""
+    """{'a': f, 'b': g}['a'] -> f ; (x, y)[1] -> y   (literal containers indexed by a constant); Rec(a, b).f / Rec(a, b)[0] -> a"""
+    if isinstance(e, ast.Attribute) and isinstance(e.ctx, ast.Load) and isinstance(e.value, ast.Call):
+        r = _record_field(e.value, attr=e.attr)
+        return r if r is not None else e
+    if isinstance(e, ast.Attribute) and isinstance(e.ctx, ast.Load) and e.attr in ("name", "value") and isinstance(e.value, ast.Attribute):
+        m = _enum_member(e.value)
+        if m is not None:
+            # Kind.RELAY.name is "RELAY"; Kind.RELAY.value is the constant the member was defined with
+            members, _plain = _class_tables(_CUR["repo"])[1][m[0]]
+            if e.attr == "name" and "name" not in members and "value" not in members:
+                return ast.copy_location(ast.Constant(value=m[1]), e)
+            key = members.get(m[1])
+            if e.attr == "value" and key is not None and key[0] == "const" and "value" not in members and "name" not in members:
+                return ast.copy_location(ast.Constant(value=key[1]), e)
+        return e
+    if isinstance(e, ast.Subscript) and isinstance(e.ctx, ast.Load) and isinstance(e.value, ast.Call) and isinstance(e.slice, ast.Constant) \
+            and isinstance(e.slice.value, int) and not isinstance(e.slice.value, bool):
+        r = _record_field(e.value, index=e.slice.value)
+        if r is not None:
+            return r
+    if isinstance(e, ast.Subscript) and isinstance(e.value, ast.Dict) and e.value.keys and all(k is not None for k in e.value.keys) \
+            and _enum_member(e.slice) is not None:
+        same = [_same_key(k, e.slice) for k in e.value.keys]
+        if None not in same and same.count(True) == 1:
+            return e.value.values[same.index(True)]
+    if isinstance(e, ast.Call) and isinstance(e.func, ast.Attribute) and e.func.attr == "get" and isinstance(e.func.value, ast.Dict) \
+            and not e.keywords and 1 <= len(e.args) <= 2 and all(k is not None for k in e.func.value.keys) \
+            and not any(isinstance(a, ast.Starred) for a in e.args):
+        same = [_same_key(k, e.args[0]) for k in e.func.value.keys]
+        if None not in same and same.count(True) <= 1:
+            if True in same:
+                return e.func.value.values[same.index(True)]
+            return e.args[1] if len(e.args) == 2 else ast.Constant(value=None)
     if isinstance(e, ast.Subscript) and isinstance(e.slice, ast.Constant):
         v = e.value
         if isinstance(v, ast.Dict) and all(k is not None for k in v.keys):
@@ -1196,7 +1799,112 @@ def _sx(e, env):
         new = type(e)(**vals)
         ast.copy_location(new, e)
         e = new
+    if isinstance(e, ast.Call):
+        e = _operator_forms(e, env)
     return _lit_index(e)
+
+
+def _lib_name(f, env, lib: str) -> str | None:
+    """name of the function of standard module `lib` that callee expression f denotes in the frame env belongs to, else None"""
+    fi = env.get(_FI)
+    if isinstance(f, ast.Name):
+        if fi is None or f.id in fi.params():
+            return None
+        imp = fi.module.imports.get(f.id)
+        return imp[1] if imp is not None and imp[0] == lib and imp[1] is not None else None
+    if isinstance(f, ast.Attribute) and isinstance(f.value, ast.Name) and f.value.id not in env:
+        if fi is not None and f.value.id not in fi.params():
+            imp = fi.module.imports.get(f.value.id)
+            return f.attr if imp == (lib, None) else None
+        return f.attr if fi is None and f.value.id == lib else None
+    return None
+
+
+_OP_COMPARE = {"eq": ast.Eq, "ne": ast.NotEq, "lt": ast.Lt, "le": ast.LtE, "gt": ast.Gt, "ge": ast.GtE, "is_": ast.Is, "is_not": ast.IsNot}
+
+
+def _operator_forms(e: ast.Call, env):
+    """
+    Calls that only spell an operator: operator.eq(a, b) is `a == b`, operator.contains(t, k) is `k in t`, operator.not_(x) is `not x`,
+    operator.getitem(x, k) is `x[k]`, attrgetter("a.b")(x) is `x.a.b`, itemgetter(k)(x) is `x[k]`, methodcaller("m", a)(x) is `x.m(a)`,
+    functools.partial(f, a)(b) is `f(a, b)`.  (Same value, same evaluation of the operands, for the operand forms the rules read.)
+    """
+    if any(isinstance(a, ast.Starred) for a in e.args):
+        # f(*(a, b), c) is f(a, b, c); so is f(*Rec(a, b), c) for a named-tuple record
+        args, spliced = [], False
+        for a in e.args:
+            seq = a.value if isinstance(a, ast.Starred) else None
+            if isinstance(seq, (ast.Tuple, ast.List)) and not any(isinstance(x, ast.Starred) for x in seq.elts):
+                args.extend(seq.elts)
+                spliced = True
+            elif isinstance(seq, ast.Call) and _record_of(seq) is not None and _record_of(seq)[1] == "tuple" and _record_operands(seq) is not None:
+                ops = _record_operands(seq)
+                args.extend(ops[f_] for f_, _d in _record_of(seq)[2])
+                spliced = True
+            else:
+                args.append(a)
+        if spliced:
+            e = ast.copy_location(ast.Call(func=e.func, args=args, keywords=e.keywords), e)
+    if any(k.arg is None for k in e.keywords):
+        return e
+    f = e.func
+    if isinstance(f, ast.Call) and not any(k.arg is None for k in f.keywords) and _lib_name(f.func, env, "functools") == "partial" and f.args \
+            and not isinstance(f.args[0], ast.Starred) and not ({k.arg for k in f.keywords} & {k.arg for k in e.keywords}):
+        # partial(f, a, k=v)(b) is f(a, b, k=v) (starred operands keep their place)
+        return _operator_forms(ast.copy_location(ast.Call(func=f.args[0], args=[*f.args[1:], *e.args], keywords=[*f.keywords, *e.keywords]), e), env)
+    if any(isinstance(a, ast.Starred) for a in e.args):
+        return e
+    if isinstance(f, ast.Lambda):
+        a = f.args
+        ps = [x.arg for x in [*a.posonlyargs, *a.args]]
+        if not (a.vararg or a.kwarg or a.kwonlyargs or a.defaults or e.keywords) and len(ps) == len(e.args):
+            # (the lambda's free names were expanded where it was written; only its parameters are left to substitute)
+            return _sx(f.body, dict(zip(ps, e.args)))
+        return e
+    if not isinstance(f, ast.Call):
+        it = _lib_name(f, env, "itertools")
+        if it == "chain" and not e.keywords and chain(f) != "itertools.chain":
+            # one spelling for the concatenation of iterables, whatever name it was imported under
+            return ast.copy_location(ast.Call(func=ast.Attribute(value=ast.Name(id="itertools", ctx=ast.Load()), attr="chain", ctx=ast.Load()),
+                                              args=list(e.args), keywords=[]), e)
+        if isinstance(f, ast.Attribute) and f.attr == "from_iterable" and _lib_name(f.value, env, "itertools") == "chain" and len(e.args) == 1 \
+                and not e.keywords and isinstance(e.args[0], (ast.Tuple, ast.List)) and not any(isinstance(x, ast.Starred) for x in e.args[0].elts):
+            return ast.copy_location(ast.Call(func=ast.Attribute(value=ast.Name(id="itertools", ctx=ast.Load()), attr="chain", ctx=ast.Load()),
+                                              args=list(e.args[0].elts), keywords=[]), e)
+        op = _lib_name(f, env, "operator")
+        if op is None or e.keywords:
+            return e
+        a = e.args
+        if op in _OP_COMPARE and len(a) == 2:
+            return ast.copy_location(ast.Compare(left=a[0], ops=[_OP_COMPARE[op]()], comparators=[a[1]]), e)
+        if op == "contains" and len(a) == 2:
+            return ast.copy_location(ast.Compare(left=a[1], ops=[ast.In()], comparators=[a[0]]), e)
+        if op == "not_" and len(a) == 1:
+            return ast.copy_location(ast.UnaryOp(op=ast.Not(), operand=a[0]), e)
+        if op == "truth" and len(a) == 1:
+            return ast.copy_location(ast.Call(func=ast.Name(id="bool", ctx=ast.Load()), args=[a[0]], keywords=[]), e)
+        if op == "getitem" and len(a) == 2:
+            return _lit_index(ast.copy_location(ast.Subscript(value=a[0], slice=a[1], ctx=ast.Load()), e))
+        return e
+    if any(isinstance(a, ast.Starred) for a in f.args) or any(k.arg is None for k in f.keywords):
+        return e
+    op = _lib_name(f.func, env, "operator")
+    if op is not None and len(e.args) == 1 and not e.keywords:
+        x = e.args[0]
+        if op == "attrgetter" and len(f.args) == 1 and not f.keywords and isinstance(const_value(f.args[0]), str):
+            out = x
+            for part in const_value(f.args[0]).split("."):
+                if not part.isidentifier():
+                    return e
+                out = _lit_index(ast.copy_location(ast.Attribute(value=out, attr=part, ctx=ast.Load()), e))
+            return out
+        if op == "itemgetter" and len(f.args) == 1 and not f.keywords:
+            return _lit_index(ast.copy_location(ast.Subscript(value=x, slice=f.args[0], ctx=ast.Load()), e))
+        if op == "methodcaller" and f.args and isinstance(const_value(f.args[0]), str) and const_value(f.args[0]).isidentifier():
+            return ast.copy_location(ast.Call(func=ast.Attribute(value=x, attr=const_value(f.args[0]), ctx=ast.Load()),
+                                              args=list(f.args[1:]), keywords=list(f.keywords)), e)
+        return e
+    return e
 
 
 def _assigned_names(nodes) -> set[str]:
@@ -1212,6 +1920,23 @@ def _assigned_names(nodes) -> set[str]:
     return out
 
 
+def _fold_isinstance(obj, classes):
+    """isinstance(<record constructor call / None / enum member>, <class or tuple of classes named in the repository>) decided by the class hierarchy"""
+    repo = _CUR["repo"]
+    cl = list(classes.elts) if isinstance(classes, ast.Tuple) else [classes]
+    names = [_last(chain(c)) if isinstance(c, (ast.Name, ast.Attribute)) else None for c in cl]
+    if repo is None or any(n is None or len(repo.classes.get(n, ())) != 1 for n in names):
+        return None
+    if isinstance(obj, ast.Constant) and obj.value is None:
+        return False
+    m = _enum_member(obj)
+    rec = _record_of(obj) if isinstance(obj, ast.Call) else None
+    have = m[0] if m is not None else (rec[0] if rec is not None and rec[3] is not None else None)
+    if have is None:
+        return None
+    return any(repo.classes[have][0].is_subclass_of(n) for n in names)
+
+
 def _fold(atom):
     """truth value of an atom that is decided by constants alone, else None"""
     if isinstance(atom, ast.Constant):
@@ -1220,8 +1945,46 @@ def _fold(atom):
         return bool(atom.elts)
     if isinstance(atom, ast.Dict):
         return bool(atom.keys) if all(k is not None for k in atom.keys) else None
+    if isinstance(atom, ast.Attribute):
+        m = _enum_member(atom)
+        if m is not None and _class_tables(_CUR["repo"])[1][m[0]][1]:
+            return True                     # a member of a plain Enum is an ordinary object: truthy
+        return None
+    if isinstance(atom, ast.Call):
+        rec = _record_of(atom)
+        if rec is not None and _record_operands(atom) is not None and (rec[3] is None or not any(k in rec[3].methods for k in ("__bool__", "__len__"))):
+            return bool(rec[2]) or rec[1] != "tuple"    # a non-empty named tuple / a dataclass instance without __bool__ / __len__
+        if isinstance(atom.func, ast.Name) and atom.func.id == "isinstance" and len(atom.args) == 2 and not atom.keywords:
+            return _fold_isinstance(atom.args[0], atom.args[1])
+        return None
     if isinstance(atom, ast.Compare) and len(atom.ops) == 1:
         l, op, r = atom.left, atom.ops[0], atom.comparators[0]
+        ml, mr = _enum_member(l), _enum_member(r)
+        if ml is not None or mr is not None:
+            if ml is not None and mr is not None and isinstance(op, (ast.Eq, ast.NotEq, ast.Is, ast.IsNot)):
+                same = _enum_equal(ml, mr)
+                return None if same is None else (same if isinstance(op, (ast.Eq, ast.Is)) else not same)
+            other = r if ml is not None else l
+            if isinstance(other, ast.Constant) and other.value is None and isinstance(op, (ast.Eq, ast.NotEq, ast.Is, ast.IsNot)):
+                return isinstance(op, (ast.NotEq, ast.IsNot))
+            if ml is not None and isinstance(op, (ast.In, ast.NotIn)):
+                seq = r
+                if isinstance(seq, ast.Call) and isinstance(seq.func, ast.Name) and seq.func.id in ("frozenset", "set", "tuple", "list") \
+                        and len(seq.args) == 1 and not seq.keywords:
+                    seq = seq.args[0]
+                if isinstance(seq, (ast.Tuple, ast.List, ast.Set)) and not any(isinstance(x, ast.Starred) for x in seq.elts):
+                    res = [(_enum_equal(ml, _enum_member(x)) if _enum_member(x) is not None else
+                            (False if isinstance(x, ast.Constant) and x.value is None else None)) for x in seq.elts]
+                    if True in res:
+                        return isinstance(op, ast.In)
+                    if None not in res:
+                        return isinstance(op, ast.NotIn)
+            return None
+        for a, b in ((l, r), (r, l)):
+            if isinstance(b, ast.Constant) and b.value is None and isinstance(op, (ast.Is, ast.IsNot, ast.Eq, ast.NotEq)) \
+                    and isinstance(a, ast.Call) and _record_of(a) is not None and (isinstance(op, (ast.Is, ast.IsNot)) or _record_of(a)[3] is None
+                                                                                  or "__eq__" not in _record_of(a)[3].methods):
+                return isinstance(op, (ast.IsNot, ast.NotEq))
         lv, rv = const_value(l), const_value(r)
         lc, rc = lv is not NOCONST, rv is not NOCONST
         if lc and rc:
@@ -1280,23 +2043,43 @@ def _container(e):
             return e
 
 
-def _quantifier(e):
-    """any(<elt> for x in (a, b, c)) / all(...) / any([p, q]) over a literal sequence -> the equivalent or/and expression"""
-    if not (isinstance(e, ast.Call) and isinstance(e.func, ast.Name) and e.func.id in ("any", "all") and len(e.args) == 1 and not e.keywords):
-        return None
-    op = ast.Or() if e.func.id == "any" else ast.And()
-    a = e.args[0]
+def _boolish(v) -> bool:
+    """v evaluates to True or False (so `|` / `&` on such values are the logical connectives)"""
+    v = strip_cast(v)
+    if isinstance(v, ast.Compare) or (isinstance(v, ast.UnaryOp) and isinstance(v.op, ast.Not)):
+        return True
+    if isinstance(v, ast.Constant):
+        return isinstance(v.value, bool)
+    if isinstance(v, ast.BoolOp):
+        return all(_boolish(x) for x in v.values)
+    if isinstance(v, ast.BinOp) and isinstance(v.op, (ast.BitOr, ast.BitAnd)):
+        return _boolish(v.left) and _boolish(v.right)
+    return isinstance(v, ast.Call) and isinstance(v.func, ast.Name) and v.func.id in ("bool", "isinstance", "issubclass", "callable", "hasattr", "any", "all")
+
+
+def _literal_elements(a, kind: str = "any", env=None):
+    """
+    the element expressions of a sequence written out in place: a display, a comprehension over a display (`if` filters folded into the
+    element the way any() / all() would see them), map(f, <display>).  None when the elements cannot be enumerated.
+    """
+    a = strip_cast(a)
+    lib = {_FI: env[_FI]} if env and _FI in env else {}
+    if isinstance(a, ast.Call) and isinstance(a.func, ast.Name) and a.func.id in ("list", "tuple", "iter") and len(a.args) == 1 and not a.keywords:
+        return _literal_elements(a.args[0], kind, env)
     if isinstance(a, (ast.Tuple, ast.List, ast.Set)) and not any(isinstance(x, ast.Starred) for x in a.elts):
-        if not a.elts:
-            return ast.Constant(value=e.func.id == "all")
-        return ast.BoolOp(op=op, values=list(a.elts)) if len(a.elts) > 1 else a.elts[0]
+        return list(a.elts)
+    if isinstance(a, ast.Call) and isinstance(a.func, ast.Name) and a.func.id == "map" and len(a.args) == 2 and not a.keywords:
+        xs = _literal_elements(a.args[1], "any", env)
+        if xs is None or isinstance(a.args[0], ast.Starred):
+            return None
+        return [_lit_index(_operator_forms(ast.Call(func=a.args[0], args=[x], keywords=[]), lib)) for x in xs]
     if isinstance(a, (ast.GeneratorExp, ast.ListComp, ast.SetComp)) and len(a.generators) == 1:
         g = a.generators[0]
-        it = strip_cast(g.iter)
-        if g.is_async or not isinstance(it, (ast.Tuple, ast.List, ast.Set)) or any(isinstance(x, ast.Starred) for x in it.elts):
+        it = _literal_elements(g.iter, "any", env) if not g.is_async else None
+        if it is None:
             return None
         vals = []
-        for x in it.elts:
+        for x in it:
             env = _bind_pattern(g.target, x)
             if env is None:
                 return None
@@ -1304,13 +2087,133 @@ def _quantifier(e):
             for c in g.ifs:
                 c2 = _sx(c, env)
                 # any: the element counts only when the filter holds; all: a filtered-out element is vacuously fine
-                v = ast.BoolOp(op=ast.And(), values=[c2, v]) if e.func.id == "any" else \
+                v = ast.BoolOp(op=ast.And(), values=[c2, v]) if kind == "any" else \
                     ast.BoolOp(op=ast.Or(), values=[ast.UnaryOp(op=ast.Not(), operand=c2), v])
             vals.append(v)
-        if not vals:
-            return ast.Constant(value=e.func.id == "all")
-        return ast.BoolOp(op=op, values=vals) if len(vals) > 1 else vals[0]
+        return vals
     return None
+
+
+def _exists_match(e, env=None):
+    """
+    (test, element values, default) for `next(<generator over a display with a filter>, default)`: `test` is true iff some element passes
+    the filter, in which case the call yields the first such element value, otherwise `default`.  None for anything else.
+    """
+    if not (isinstance(e, ast.Call) and isinstance(e.func, ast.Name) and e.func.id == "next" and len(e.args) == 2 and not e.keywords):
+        return None
+    a = strip_cast(e.args[0])
+    if isinstance(a, ast.Call) and isinstance(a.func, ast.Name) and a.func.id == "iter" and len(a.args) == 1 and not a.keywords:
+        a = strip_cast(a.args[0])
+    if isinstance(a, ast.Call) and isinstance(a.func, ast.Name) and a.func.id == "filter" and len(a.args) == 2 and not a.keywords \
+            and not (isinstance(a.args[0], ast.Constant) and a.args[0].value is None):
+        xs = _literal_elements(a.args[1], "any", env)
+        if xs is None:
+            return None
+        lib = {_FI: env[_FI]} if env and _FI in env else {}
+        tests = [_lit_index(_operator_forms(ast.Call(func=a.args[0], args=[x], keywords=[]), lib)) for x in xs]
+        return (ast.BoolOp(op=ast.Or(), values=tests) if len(tests) > 1 else tests[0] if tests else ast.Constant(value=False)), xs, e.args[1]
+    if not (isinstance(a, (ast.GeneratorExp, ast.ListComp)) and len(a.generators) == 1 and a.generators[0].ifs and not a.generators[0].is_async):
+        return None
+    g = a.generators[0]
+    it = _literal_elements(g.iter, "any", env)
+    if it is None:
+        return None
+    tests, vals = [], []
+    for x in it:
+        env = _bind_pattern(g.target, x)
+        if env is None:
+            return None
+        cs = [_sx(c, env) for c in g.ifs]
+        tests.append(cs[0] if len(cs) == 1 else ast.BoolOp(op=ast.And(), values=cs))
+        vals.append(_sx(a.elt, env))
+    test = ast.BoolOp(op=ast.Or(), values=tests) if len(tests) > 1 else tests[0] if tests else ast.Constant(value=False)
+    return test, vals, e.args[1]
+
+
+def _selected(v, env):
+    """
+    (placeholder text, [(atom, polarity)]) for v = next(<the elements of some iterable that pass a test>) without a default: what is known
+    about the element that comes out, written over the placeholder.  None when v is not such a selection.
+    """
+    v = strip_cast(v)
+    if not (isinstance(v, ast.Call) and isinstance(v.func, ast.Name) and v.func.id == "next" and len(v.args) == 1 and not v.keywords):
+        return None
+    lib = {_FI: env[_FI]} if env and _FI in env else {}
+    x = ast.Name(id="$element", ctx=ast.Load())
+    src = strip_cast(v.args[0])
+    if isinstance(src, ast.Call) and isinstance(src.func, ast.Name) and src.func.id == "iter" and len(src.args) == 1 and not src.keywords:
+        src = strip_cast(src.args[0])
+    known: list = []
+    if isinstance(src, (ast.GeneratorExp, ast.ListComp)) and len(src.generators) == 1 and isinstance(src.generators[0].target, ast.Name) \
+            and isinstance(src.elt, ast.Name) and src.elt.id == src.generators[0].target.id and not src.generators[0].is_async:
+        known = [(_sx(c, {src.elt.id: x}), True) for c in src.generators[0].ifs]
+    elif isinstance(src, ast.Call) and len(src.args) == 2 and not src.keywords and not any(isinstance(a, ast.Starred) for a in src.args):
+        name = src.func.id if isinstance(src.func, ast.Name) and src.func.id == "filter" else _lib_name(src.func, lib, "itertools")
+        if name not in ("filter", "filterfalse", "dropwhile") or (isinstance(src.args[0], ast.Constant) and src.args[0].value is None):
+            return None
+        applied = _lit_index(_operator_forms(ast.Call(func=src.args[0], args=[x], keywords=[]), lib))
+        known = [(applied, name == "filter")]
+    else:
+        return None
+    out = []
+    for a, pol in known:
+        a = strip_cast(a)
+        while isinstance(a, ast.UnaryOp) and isinstance(a.op, ast.Not):
+            a, pol = strip_cast(a.operand), not pol
+        if isinstance(a, ast.BoolOp) and isinstance(a.op, ast.And if pol else ast.Or):
+            out.extend((y, pol) for y in a.values)      # a true conjunction / a false disjunction decides every operand
+        else:
+            out.append((a, pol))
+    return "$element", out
+
+
+def _never_none(v) -> bool:
+    v = strip_cast(v)
+    return (isinstance(v, ast.Constant) and v.value is not None) or isinstance(v, (ast.Tuple, ast.List, ast.Dict, ast.Set)) \
+        or chain(v) in _DICT_TABLES or _enum_member(v) is not None
+
+
+def _quantifier(e, env=None):
+    """
+    any(<elt> for x in (a, b, c)) / all(...) / any([p, q]) / any(map(f, (a, b))) over a literal sequence -> the equivalent or/and expression;
+    reduce(operator.or_ / and_, <literal sequence of truth values>) likewise; next((<truthy constant> for x in (a, b) if <test>), <falsy constant>)
+    and `next((x for x in (a, b) if <test>), None) is [not] None` -> "some element passes the test".
+    """
+    env = env if env is not None else {}
+    if isinstance(e, ast.Compare) and len(e.ops) == 1 and isinstance(e.ops[0], (ast.Is, ast.IsNot, ast.Eq, ast.NotEq)):
+        for a, b in ((e.left, e.comparators[0]), (e.comparators[0], e.left)):
+            if isinstance(b, ast.Constant) and b.value is None:
+                m = _exists_match(strip_cast(a), env)
+                if m is not None and isinstance(m[2], ast.Constant) and m[2].value is None and all(_never_none(v) for v in m[1]):
+                    return m[0] if isinstance(e.ops[0], (ast.IsNot, ast.NotEq)) else ast.UnaryOp(op=ast.Not(), operand=m[0])
+        return None
+    if not isinstance(e, ast.Call) or e.keywords:
+        return None
+    m = _exists_match(e, env)
+    if m is not None:
+        truthy = all(isinstance(v, ast.Constant) and bool(v.value) for v in m[1])
+        return m[0] if truthy and isinstance(m[2], ast.Constant) and not m[2].value else None
+    kind = None
+    if isinstance(e.func, ast.Name) and e.func.id in ("any", "all") and len(e.args) == 1:
+        kind, a, need_bool = e.func.id, e.args[0], False
+    elif _lib_name(e.func, env, "functools") == "reduce" and len(e.args) in (2, 3) and not any(isinstance(x, ast.Starred) for x in e.args):
+        opn = _lib_name(e.args[0], env, "operator")
+        if opn in ("or_", "and_"):
+            kind, a, need_bool = ("any" if opn == "or_" else "all"), e.args[1], True
+    if kind is None:
+        return None
+    op = ast.Or() if kind == "any" else ast.And()
+    vals = _literal_elements(a, kind, env)
+    if vals is None:
+        return None
+    if need_bool:
+        if len(e.args) == 3:
+            vals = [e.args[2], *vals]
+        if not vals or not all(_boolish(v) for v in vals):
+            return None         # (reduce over an empty sequence raises; `|` on other values is not `or`)
+    if not vals:
+        return ast.Constant(value=kind == "all")
+    return ast.BoolOp(op=op, values=vals) if len(vals) > 1 else vals[0]
 
 
 def _bind_pattern(target, value) -> dict | None:
@@ -1318,13 +2221,39 @@ def _bind_pattern(target, value) -> dict | None:
     if isinstance(target, ast.Name):
         return {target.id: value}
     if isinstance(target, (ast.Tuple, ast.List)):
-        if any(isinstance(t, ast.Starred) for t in target.elts):
-            return None
+        stars = [i for i, t in enumerate(target.elts) if isinstance(t, ast.Starred)]
+        if stars:
+            # `a, *rest, z = v`: a = v[0], rest = v[1:-1], z = v[-1]  (v is a sequence here: unpack results, tuples, lists - a starred target
+            # makes `rest` a list of the same elements, which is all the rules read from it)
+            if len(stars) > 1 or not isinstance(target.elts[stars[0]].value, ast.Name):
+                return None
+            k, after = stars[0], len(target.elts) - stars[0] - 1
+            lit = isinstance(value, (ast.Tuple, ast.List)) and not any(isinstance(x, ast.Starred) for x in value.elts) \
+                and len(value.elts) >= len(target.elts) - 1
+            out = {}
+            for i, t in enumerate(target.elts):
+                if i < k:
+                    v = value.elts[i] if lit else _lit_index(ast.Subscript(value=value, slice=ast.Constant(value=i), ctx=ast.Load()))
+                elif i == k:
+                    if lit:
+                        v = ast.List(elts=list(value.elts[k:len(value.elts) - after]), ctx=ast.Load())
+                    else:
+                        v = ast.Subscript(value=value, slice=ast.Slice(lower=ast.Constant(value=k) if k else None,
+                                                                       upper=ast.Constant(value=-after) if after else None), ctx=ast.Load())
+                    t = t.value
+                else:
+                    j = i - len(target.elts)
+                    v = value.elts[j] if lit else _lit_index(ast.Subscript(value=value, slice=ast.Constant(value=j), ctx=ast.Load()))
+                sub = _bind_pattern(t, v)
+                if sub is None:
+                    return None
+                out.update(sub)
+            return out
         out = {}
         lit = isinstance(value, (ast.Tuple, ast.List)) and len(value.elts) == len(target.elts) \
             and not any(isinstance(x, ast.Starred) for x in value.elts)
         for i, t in enumerate(target.elts):
-            v = value.elts[i] if lit else ast.Subscript(value=value, slice=ast.Constant(value=i), ctx=ast.Load())
+            v = value.elts[i] if lit else _lit_index(ast.Subscript(value=value, slice=ast.Constant(value=i), ctx=ast.Load()))
             sub = _bind_pattern(t, v)
             if sub is None:
                 return None
@@ -1349,7 +2278,9 @@ class _Hit:
     def funcs(self) -> list:
         """what the callee expression denotes on this path (a set when it is picked from a literal table by a non-constant key)"""
         if self._func is None:
-            f = self._node.func if self._node is not None and self.kind == "call" else _sx(self.orig.func, self.st.env)
+            n = self.node() if self.kind == "call" else None
+            # (the expanded call may name its callee more directly than the source does: partial(f, a)(b) is the call f(a, b))
+            f = n.func if isinstance(n, ast.Call) else _sx(self.orig.func, self.st.env)
             self._func = _callee_alternatives(_settle(f, self.st.recent))
         return self._func
 
@@ -1402,6 +2333,7 @@ def _callee_alternatives(f) -> list:
 class _Sym:
     def __init__(self, ctx: Ctx, fi: FuncInfo, follow=None, force=()):
         self.ctx, self.repo, self.top = ctx, ctx.repo, fi
+        _CUR["repo"] = ctx.repo
         self.follow = follow
         self.force = {id(f.node) for f in force}
         self.hits: list[_Hit] = []
@@ -1455,9 +2387,37 @@ class _Sym:
                 self.hits.append(_Hit(n, st, "call"))
 
     # ------------------------------------------------------------------ calls
+    def receiver_of(self, call: ast.Call, st: _State):
+        """(method, receiver expression) when the call is `obj(...)` / `obj.m(...)` on an object whose constructor call is known (a record), else None"""
+        f = call.func
+        if isinstance(f, ast.Name) and f.id in st.env:
+            recv, meth = _sx(f, st.env), "__call__"
+        elif isinstance(f, ast.Attribute) and (not isinstance(f.value, ast.Name) or f.value.id in st.env):
+            recv, meth = _sx(f.value, st.env), f.attr
+        else:
+            return None
+        rec = _record_of(recv) if isinstance(recv, ast.Call) else None
+        if rec is None or rec[3] is None or _record_operands(recv) is None:
+            return None
+        m = rec[3].methods.get(meth)
+        if m is None or not rec[3].name.startswith("_") or not rec[3].module.relpath.startswith(PKG) or m.decorator_names():
+            return None
+        return m, recv
+
     def target_of(self, call: ast.Call, st: _State, awaited: bool):
         f = call.func
         fi = st.fi
+        r = self.receiver_of(call, st)
+        if r is not None:
+            t = r[0]
+            a = t.node.args
+            if any(fr.fi.node is t.node for fr in st.frames) or len(st.frames) > 5 or a.vararg or a.kwarg \
+                    or any(isinstance(x, ast.Starred) for x in call.args) or any(k.arg is None for k in call.keywords) \
+                    or (t.is_async and not awaited) or any(isinstance(n, ast.Nonlocal) for n in walk_no_nested(t.node)):
+                return None
+            return t
+        if "self" in st.env:
+            return None             # inside a method of another object: `self.x(...)` is not a method of the class the walk started in
         if isinstance(f, ast.Attribute) and isinstance(f.value, ast.Name) and f.value.id == "self":
             tg = self.repo.resolve_call(fi, call)
             if fi is not self.top and self.top.cls is not None and fi.cls is not None:
@@ -1495,12 +2455,18 @@ class _Sym:
         a = t.node.args
         allpos = [x.arg for x in [*a.posonlyargs, *a.args]]
         pos = allpos
-        if t.cls is not None and "staticmethod" not in t.decorator_names() and isinstance(call.func, ast.Attribute):
+        env: dict = {}
+        r = self.receiver_of(call, st)
+        if r is not None and r[0].node is t.node:
+            if not pos:
+                return None
+            env[pos[0]] = r[1]                  # the method's `self` is the object: its attributes are the operands it was constructed with
+            pos = pos[1:]
+        elif t.cls is not None and "staticmethod" not in t.decorator_names() and isinstance(call.func, ast.Attribute):
             if not pos:
                 return None
             pos = pos[1:]                       # self stays `self`: the receiver is the object the walk started on
         names = pos + [x.arg for x in a.kwonlyargs]
-        env: dict = {}
         if parent_is_closure(t, st.fi):
             # a local function reads the enclosing function's locals as they are when it is called
             own = _assigned_names(t.node.body) | set(names)
@@ -1664,7 +2630,7 @@ class _Sym:
         out = []
         for s, v in vals:
             v = strip_cast(v)
-            q = _quantifier(v)
+            q = _quantifier(v, s.env)
             if q is not None:
                 v = q
             elif isinstance(v, ast.Compare) and len(v.ops) == 1 and isinstance(v.ops[0], (ast.In, ast.NotIn)):
@@ -1769,8 +2735,9 @@ class _Sym:
                 b = t
                 while isinstance(b, (ast.Subscript, ast.Attribute)):
                     b = b.value
-                if b is not t and isinstance(b, ast.Name) and isinstance(s.env.get(b.id), (ast.List, ast.Dict, ast.Set, ast.Tuple)):
-                    s = self.havoc(s, [b.id])
+                if b is not t and isinstance(b, ast.Name) and (isinstance(s.env.get(b.id), (ast.List, ast.Dict, ast.Set, ast.Tuple))
+                                                               or _record_of(s.env.get(b.id)) is not None):
+                    s = self.havoc(s, [b.id])       # (a dataclass record whose field is assigned is no longer what its constructor call says)
             out.append(("next", self.bind_all(s, m), None))
         return out
 
@@ -1860,12 +2827,7 @@ class _Sym:
         if isinstance(s, (ast.For, ast.AsyncFor)):
             return self.do_for(s, st)
         if isinstance(s, (ast.With, ast.AsyncWith)):
-            for i in s.items:
-                st = self.walrus(i.context_expr, st)
-                self.record(i.context_expr, st)
-                if i.optional_vars is not None:
-                    st = self.havoc(st, _assigned_names([i.optional_vars]))
-            return self.block(s.body, st)
+            return self.do_with(s, st)
         if isinstance(s, ast.Try) or s.__class__.__name__ == "TryStar":
             return self.do_try(s, st)
         if isinstance(s, ast.Raise):
@@ -2064,16 +3026,17 @@ class _Sym:
         for s0, subj in self.value(s.subject, st):
             pending = [s0]
             for case in s.cases:
-                test = self.pattern_test(case.pattern, subj)
                 bound = _assigned_names([case.pattern]) | {n.name for n in ast.walk(case.pattern)
-                                                           if isinstance(n, (ast.MatchAs, ast.MatchStar)) and n.name}
+                                                           if isinstance(n, (ast.MatchAs, ast.MatchStar)) and n.name} | \
+                    {n.rest for n in ast.walk(case.pattern) if isinstance(n, ast.MatchMapping) and n.rest}
                 nxt = []
                 for c in pending:
+                    test, binds = self.pattern_test(case.pattern, subj, c.env)
                     if test is None:                     # structural pattern: may or may not match
                         taken, nxt2 = [self.havoc(c, bound)], [c]
                     else:
                         r = self.branch(test, c, True)
-                        taken, nxt2 = [x for x, o in r if o], [x for x, o in r if not o]
+                        taken, nxt2 = [self.bind_all(x, binds) for x, o in r if o], [x for x, o in r if not o]
                     for t in taken:
                         if case.guard is not None:
                             for t2, o in self.cond_stmt(case.guard, t):
@@ -2088,21 +3051,147 @@ class _Sym:
             out.extend(("next", c, None) for c in pending)
         return out
 
-    def pattern_test(self, p, subj):
-        if isinstance(p, ast.MatchValue) and isinstance(p.value, ast.Constant):
-            return ast.Compare(left=subj, ops=[ast.Eq()], comparators=[p.value])
+    def pattern_test(self, p, subj, env):  # noqa: C901, PLR0911, PLR0912
+        """
+        (test expression, {captured name: expression}) that decides whether (expanded) subject `subj` matches pattern p; (None, {}) when the
+        pattern asks something about the subject's structure that its expression does not show.
+        """
+        unknown = (None, {})
+        if isinstance(p, ast.MatchValue):
+            # a literal, or a dotted name (`Verdict.DROP`, `self.LIMIT`) compared with ==
+            return ast.Compare(left=subj, ops=[ast.Eq()], comparators=[_sx(p.value, env)]), {}
         if isinstance(p, ast.MatchSingleton):
-            return ast.Compare(left=subj, ops=[ast.Is()], comparators=[ast.Constant(value=p.value)])
-        if isinstance(p, ast.MatchAs) and p.pattern is None and p.name is None:
-            return ast.Constant(value=True)
+            return ast.Compare(left=subj, ops=[ast.Is()], comparators=[ast.Constant(value=p.value)]), {}
+        if isinstance(p, ast.MatchAs):
+            if p.pattern is None:
+                return ast.Constant(value=True), ({p.name: subj} if p.name else {})
+            t, b = self.pattern_test(p.pattern, subj, env)
+            return (t, {**b, **({p.name: subj} if p.name else {})}) if t is not None else unknown
         if isinstance(p, ast.MatchOr):
-            ts = [self.pattern_test(x, subj) for x in p.patterns]
-            return None if any(t is None for t in ts) else ast.BoolOp(op=ast.Or(), values=ts)
-        return None
+            ts = [self.pattern_test(x, subj, env) for x in p.patterns]
+            if any(t is None or b for t, b in ts):
+                return unknown
+            return ast.BoolOp(op=ast.Or(), values=[t for t, _b in ts]), {}
+        if isinstance(p, ast.MatchSequence):
+            if any(isinstance(x, ast.MatchStar) for x in p.patterns):
+                return unknown
+            elts = None
+            if isinstance(subj, (ast.Tuple, ast.List)) and not any(isinstance(x, ast.Starred) for x in subj.elts):
+                elts = list(subj.elts)
+            elif isinstance(subj, ast.Call) and _record_of(subj) is not None and _record_of(subj)[1] == "tuple":
+                ops = _record_operands(subj)
+                elts = [ops[f] for f, _d in _record_of(subj)[2]] if ops is not None else None
+            elif (isinstance(subj, ast.Constant) and not isinstance(subj.value, (str, bytes))) or _enum_member(subj) is not None or \
+                    (isinstance(subj, ast.Call) and _record_of(subj) is not None) or isinstance(subj, (ast.Dict, ast.Set)):
+                return ast.Constant(value=False), {}        # None / a number / an enum member / a dataclass / a dict is not a sequence
+            if elts is None:
+                return unknown
+            if len(elts) != len(p.patterns):
+                return ast.Constant(value=False), {}
+            return self._all_of([self.pattern_test(x, v, env) for x, v in zip(p.patterns, elts)])
+        if isinstance(p, ast.MatchClass):
+            repo = self.repo
+            want = _last(chain(p.cls)) if isinstance(p.cls, (ast.Name, ast.Attribute)) else ""
+            if isinstance(subj, ast.Constant) and subj.value is None and len(repo.classes.get(want, ())) == 1:
+                return ast.Constant(value=False), {}
+            rec = _record_of(subj) if isinstance(subj, ast.Call) else None
+            m = _enum_member(subj)
+            if m is not None and len(repo.classes.get(want, ())) == 1 and not p.patterns and not p.kwd_patterns:
+                return ast.Constant(value=repo.classes[m[0]][0].is_subclass_of(want)), {}
+            if rec is None or rec[3] is None or len(repo.classes.get(want, ())) != 1 or "__match_args__" in rec[3].attrs:
+                return unknown
+            if not rec[3].is_subclass_of(want):
+                return ast.Constant(value=False), {}
+            ops = _record_operands(subj)
+            names = [f for f, _d in rec[2]]
+            amap = rec[4] if rec[4] is not None else {f: f for f in names}
+            if ops is None or len(p.patterns) > len(names) or any(k not in amap for k in p.kwd_attrs) or (rec[4] is not None and p.patterns):
+                return unknown
+            subs = [self.pattern_test(x, ops[names[i]], env) for i, x in enumerate(p.patterns)]
+            subs += [self.pattern_test(x, ops[amap[k]], env) for k, x in zip(p.kwd_attrs, p.kwd_patterns)]
+            return self._all_of(subs)
+        return unknown
+
+    @staticmethod
+    def _all_of(subs):
+        if any(t is None for t, _b in subs):
+            return None, {}
+        binds: dict = {}
+        for _t, b in subs:
+            binds.update(b)
+        tests = [t for t, _b in subs if not (isinstance(t, ast.Constant) and t.value is True)]
+        if not tests:
+            return ast.Constant(value=True), binds
+        return (tests[0] if len(tests) == 1 else ast.BoolOp(op=ast.And(), values=tests)), binds
+
+    def sole_lookup(self, body, st: _State):
+        """
+        `k in T` (expanded) when the only thing in `body` that can raise a KeyError is one subscript T[k] of a routing table, evaluated before
+        anything is assigned or called: no other subscript, no call (logging aside), no raise, no nested handler, no loop.  Else None.
+        """
+        subs = []
+        for stmt in body:
+            for n in walk_no_nested(stmt):
+                if isinstance(n, ast.Subscript) and isinstance(n.ctx, ast.Load):
+                    subs.append(n)
+                elif isinstance(n, ast.Subscript):
+                    return None
+                elif isinstance(n, ast.Call) and not _is_cast(n) and not (chain(n.func) or "").startswith(("self.logger.", "logger.")):
+                    return None
+                elif isinstance(n, (ast.Raise, ast.Try, ast.With, ast.AsyncWith, ast.For, ast.AsyncFor, ast.While, ast.Await, ast.Yield, ast.YieldFrom,
+                                    ast.Delete, ast.Assert, ast.Import, ast.ImportFrom, ast.FunctionDef, ast.AsyncFunctionDef, ast.ClassDef, ast.Lambda,
+                                    ast.Match, ast.ListComp, ast.SetComp, ast.DictComp, ast.GeneratorExp, ast.Starred)):
+                    return None
+        if len(subs) != 1 or not body or not any(subs[0] is n for n in walk_no_nested(body[0])):
+            return None
+        base, key = _sx(subs[0].value, st.env), _sx(subs[0].slice, st.env)
+        if chain(base) not in _DICT_TABLES or isinstance(subs[0].slice, ast.Slice):
+            return None
+        return ast.Compare(left=key, ops=[ast.In()], comparators=[base])
+
+    def do_with(self, s, st: _State) -> list:
+        """`with suppress(E): body` runs like `try: body / except E: pass`; any other context manager is entered and the body runs"""
+        if len(s.items) == 1 and isinstance(s, ast.With) and isinstance(s.items[0].context_expr, ast.Call) and s.items[0].optional_vars is None:
+            c = s.items[0].context_expr
+            if _lib_name(c.func, st.env, "contextlib") == "suppress" and not c.keywords and not any(isinstance(a, ast.Starred) for a in c.args):
+                self.record(c, st)
+                if not c.args:
+                    return self.block(s.body, st)
+                typ = c.args[0] if len(c.args) == 1 else ast.Tuple(elts=list(c.args), ctx=ast.Load())
+                t = ast.Try(body=s.body, handlers=[ast.ExceptHandler(type=typ, name=None, body=[ast.Pass()])], orelse=[], finalbody=[])
+                return self.do_try(ast.copy_location(t, s), st)
+        for i in s.items:
+            st = self.walrus(i.context_expr, st)
+            self.record(i.context_expr, st)
+            if i.optional_vars is not None:
+                st = self.havoc(st, _assigned_names([i.optional_vars]))
+        return self.block(s.body, st)
 
     def do_try(self, s, st: _State) -> list:
         res = []
-        for kind, s2, v in self.block(s.body, st):
+        compound = (ast.If, ast.For, ast.AsyncFor, ast.While, ast.Try, ast.With, ast.AsyncWith, ast.Match, ast.FunctionDef, ast.AsyncFunctionDef, ast.ClassDef)
+        entries = None
+        if s.handlers and len(s.body) <= 4 and not any(isinstance(x, compound) for x in s.body):
+            # a short straight-line body: an exception leaves it out of one of its statements, with everything before that statement done and
+            # nothing of the statement itself bound (a name is bound after its value has been computed)
+            entries, cur, body_out = [], [st], []
+            for stmt in s.body:
+                nxt = []
+                for c in cur:
+                    if _stmt_may_raise(stmt):
+                        entries.append(c)
+                    for kind, s2, v in self.block([stmt], c):
+                        if kind == "next":
+                            nxt.append(s2)
+                        else:
+                            body_out.append((kind, s2, v))
+                cur = nxt
+            body_out.extend(("next", c, None) for c in cur)
+            if len(entries) > 6:
+                entries = None
+        else:
+            body_out = self.block(s.body, st)
+        for kind, s2, v in body_out:
             if kind == "next":
                 res.extend(self.block(s.orelse, s2))
             elif kind == "raise" and s.handlers:
@@ -2110,12 +3199,18 @@ class _Sym:
             else:
                 res.append((kind, s2, v))
         if s.handlers:
-            # an exception may leave the body anywhere: what the body assigns is unknown, only the tests passed before the try hold
-            sh = self.havoc(st, _assigned_names(s.body))
+            if entries is None:
+                # an exception may leave the body anywhere: what the body assigns is unknown, only the tests passed before the try hold
+                entries = [self.havoc(st, _assigned_names(s.body))]
+            missing = self.sole_lookup(s.body, st)
             for h in s.handlers:
-                s3 = self.havoc(sh, [h.name]) if h.name else sh
-                self.record(h.type, s3)
-                res.extend(self.block(h.body, s3))
+                self.record(h.type, st)
+                for sh in entries:
+                    s3 = self.havoc(sh, [h.name]) if h.name else sh
+                    if missing is not None and h.type is not None and chain(h.type) in ("KeyError", "LookupError"):
+                        # the body can raise a KeyError in one place only - the lookup T[k] in a routing table (a plain dict): k is not in T
+                        s3 = s3.cond(missing, False)
+                    res.extend(self.block(h.body, s3))
         if s.finalbody:
             out = []
             for kind, s2, v in res:
@@ -2123,6 +3218,21 @@ class _Sym:
                     out.append((kind, s4, v) if k2 == "next" else (k2, s4, v2))
             return out
         return res
+
+
+def _stmt_may_raise(stmt) -> bool:
+    """a simple statement that does something which can fail (a call, a lookup, an attribute access, arithmetic, a comparison, unpacking)"""
+    if isinstance(stmt, (ast.Pass, ast.Break, ast.Continue, ast.Global, ast.Nonlocal)):
+        return False
+    if isinstance(stmt, (ast.Raise, ast.Assert, ast.Delete, ast.Import, ast.ImportFrom, ast.AugAssign)):
+        return True
+    if isinstance(stmt, ast.Assign) and any(not isinstance(t, ast.Name) for t in stmt.targets):
+        return True
+    for n in walk_no_nested(stmt):
+        if isinstance(n, (ast.Call, ast.Subscript, ast.Attribute, ast.BinOp, ast.Compare, ast.Await, ast.Yield, ast.YieldFrom, ast.Starred, ast.UnaryOp,
+                          ast.JoinedStr, ast.ListComp, ast.SetComp, ast.DictComp, ast.GeneratorExp)):
+            return True
+    return False
 
 
 def _unconditional(e):
@@ -2217,6 +3327,7 @@ def parent_is_closure(t: FuncInfo, cur: FuncInfo) -> bool:
 
 def _walk(ctx: Ctx, fi: FuncInfo, force=()) -> _Sym:
     cache = ctx.__dict__.setdefault("_c05_walks", {})
+    _CUR["repo"] = ctx.repo         # hits expand their operands lazily: the class tables they consult are those of this repository
     key = (id(fi.node), tuple(sorted(id(f.node) for f in force)))
     if key not in cache:
         try:
@@ -2408,7 +3519,80 @@ def rule_entry_conversion(ctx: Ctx) -> None:
     ctx.floor("entry-conversion", n, 6)
 
 
+def rule_interception(ctx: Ctx) -> None:
+    """
+    Cells reach the community's handlers only after PythonCryptoEndpoint.on_packet / process_cell removed their layers with the circuit's
+    keys.  That holds because setup_tunnels() detaches the community from - and attaches the decrypting listener to - the endpoint the
+    crypto endpoint WRAPS.  The community itself was registered (Community.__init__) on `self.endpoint`; so the wrapped endpoint has to be
+    that very object.  Wrapping a part of it (one interface of a DispatcherEndpoint) leaves the community a direct listener on the other
+    interfaces, where any datagram carrying the prefix is dispatched to the cell handlers without a single key being used.
+    """
+    repo = ctx.repo
+    tc = repo.cls("TunnelCommunity", TC)
+    family = {id(c.node) for c in [tc, *tc.all_subclasses()]}
+    sites = [(fi, c) for _m, fi, c in repo.callers_of_name("PythonCryptoEndpoint") if fi is not None and fi.module.relpath.startswith(PKG)
+             and not (fi.cls is not None and fi.cls.name == "PythonCryptoEndpoint")]
+    via_walk: dict = {}
+    if not sites:
+        # the class may be called through a local / a table it was put in: the calls of __init__ whose callee denotes it
+        init = tc.lookup("__init__")
+        w0 = _try_walk(ctx, init) if init is not None and init.cls is tc else None
+        for h in (w0.hits if w0 is not None else []):
+            if h.kind == "call" and any(_last(chain(f)) == "PythonCryptoEndpoint" for f in h.funcs()):
+                via_walk.setdefault(id(h.orig), (init, h.orig, []))[2].append(h)
+        sites = [(f_, c_) for f_, c_, _hs in via_walk.values()]
+    ctx.anchor(sites, "construction of the PythonCryptoEndpoint that intercepts the community's packets")
+    reason = ("the PythonCryptoEndpoint is built around `{a}` instead of the endpoint the community is registered on (`self.endpoint`): setup_tunnels() "
+              "removes the community as a listener of the wrapped endpoint only, so on every other interface of `self.endpoint` the community still "
+              "receives datagrams directly and hands cells naming a known circuit id to its handlers without any decryption - no keys needed")
+    for fi, c in sites:
+        first = arg(c, 0, "endpoint")
+        d_ok = first is not None and not isinstance(first, ast.Starred) and norm(strip_cast(resolve(fi, strip_cast(first)))) == "self.endpoint" \
+            and fi.cls is not None and id(fi.cls.node) in family
+        hits = None
+        if id(c) in via_walk:
+            d_ok, hits = False, via_walk[id(c)][2]
+        elif not d_ok:
+            # per path (a local that is the whole endpoint on one path and one interface on another; construction moved into a helper)
+            entries, chain_of = [fi], [fi]
+            for _ in range(3):
+                if not all(e.name.startswith("_") and not e.name.startswith("__") for e in entries):
+                    break
+                ups = [u for e in entries for u in _callers_within(repo, e)]
+                if not ups or any(u is None or not u.module.relpath.startswith(PKG) for u in ups):
+                    break
+                entries = list({id(u.node): u for u in ups}.values())
+                chain_of.extend(entries)
+            if not all(e.cls is not None and id(e.cls.node) in family for e in entries):
+                raise AnalysisError(f"undecided: interception: PythonCryptoEndpoint is constructed in {fi.qualname}, which is not reached from TunnelCommunity only")
+            walks = [_try_walk(ctx, e, force=tuple(x for x in chain_of if x is not e)) for e in entries]
+            if any(w is None for w in walks):
+                raise AnalysisError(f"undecided: interception: construction of PythonCryptoEndpoint in {fi.qualname} could not be followed")
+            hits = [h for w in walks for h in w.hits if h.orig is c]
+
+        def path_ok(h: _Hit) -> bool:
+            n = h.node()
+            a = arg(n, 0, "endpoint") if isinstance(n, ast.Call) else None
+            if a is None or isinstance(a, ast.Starred):
+                return False
+            a = strip_cast(a)
+            if norm(a) == "self.endpoint":
+                return True
+            # `settings.endpoint` inside __init__(self, settings): Overlay.__init__ makes exactly that object self.endpoint
+            top = h.st.frames[0].fi
+            if isinstance(a, ast.Attribute) and a.attr == "endpoint" and isinstance(a.value, ast.Name) and top.name == "__init__" \
+                    and a.value.id in top.params()[1:] and not local_defs(top, a.value.id):
+                ann = next((p.annotation for p in top.node.args.args if p.arg == a.value.id), None)
+                return ann is not None and "Settings" in norm(ann)
+            return False
+
+        shown = norm(resolve(fi, strip_cast(first))) if first is not None else "?"
+        _decide(ctx, "keys-required", fi, c, True if d_ok else None, hits, path_ok,
+                "the decrypting endpoint wraps the endpoint the community is registered on (self.endpoint)", reason.format(a=shown))
+
+
 def run(ctx: Ctx) -> None:
+    rule_interception(ctx)
     rule_authenticated_accounting(ctx)
     rule_unkeyed_circuit(ctx)
     rule_destroy(ctx)
@@ -2430,6 +3614,9 @@ WITNESSES = [
             return None
 
 """, "new": ""},
+    {"name": "decrypting endpoint wraps one interface only, the community stays a direct listener on the others (seeded C05-m12)", "file": TC,
+     "rule": "keys-required",
+     "old": "CryptoEndpoint) else PythonCryptoEndpoint(self.endpoint)", "new": "CryptoEndpoint) else PythonCryptoEndpoint(ipv4_endpoint)"},
     {"name": "pre-fix: join_circuit overwrites live id", "file": TC, "rule": "no-overwrite-live-id",
      "old": "        if circuit_id in self.circuits or circuit_id in self.relay_from_to or circuit_id in self.exit_sockets:\n            self.logger.warning(\"Refusing to join circuit %d: circuit id is already in use\", circuit_id)\n            return\n",
      "new": ""},
